@@ -336,7 +336,7 @@ class ReservablePriorityReqFilterStore(FilterStore):
             # Successful reservation; add to reservations list
             item_len = len(self.reserved_events)
             #check if there any items that satisfy filter condition in other items thatare not already reserved
-            for item in self.items[item_len:]:
+            for item_index, item in enumerate(self.items[item_len:], start=item_len):
 
                 if event.filter(item):
 
@@ -347,6 +347,8 @@ class ReservablePriorityReqFilterStore(FilterStore):
 
                   #reserving the item to preserved item order by adding the reserve_get event to a list(the index position of event= index position of reserved item)
                   self.reserved_events.append(event)
+                  #the reservation is bound by position: move the matching item next to the items that are already reserved
+                  self.items.insert(item_len, self.items.pop(item_index))
                   break
 
 
